@@ -242,10 +242,18 @@ func (l *Liar) prepare(n *chaingen.Node, k string) bool {
 	case LieWrongHash:
 		var h chainhash.Hash
 		l.rng.Read(h[:])
+		if h[0]%3 == 0 {
+			// The cheapest false value there is: all zeroes. No filter
+			// hashes to it.
+			h = chainhash.Hash{}
+		}
 		l.fakeHash[n.Hash] = h // serves the honest filter
 	case LieUnserved:
 		var h chainhash.Hash
 		l.rng.Read(h[:])
+		if h[0]%3 == 0 {
+			h = chainhash.Hash{}
+		}
 		l.fakeHash[n.Hash] = h
 		l.noServe[n.Hash] = true
 	default:
